@@ -203,3 +203,45 @@ def retire_under_equality(rep, rule, f, name, retire_blocks, cur_fields, what):
     rep.ob(rule, "retire-only-if-version-unchanged|%s" % name, bool(retire_blocks) and not bad,
            "%s must lie on the equal edge of a comparison of the current version with the snapshot's (found comparisons: %s)" % (what, ops or "none"),
            "%s:%d" % (f.file, guards[0][4] if guards else f.line))
+
+
+# ---------------------------------------------------------------- a bucket whose content changed is re-persisted
+BUCKET_SPECS = {
+    "btree": ("anda_db_btree::btree::BTreeIndex::<PK, FV>", ("insert", "insert_array", "remove", "remove_array", "compact_buckets"),
+              "0", r"\(usize, bool, anda_db_utils::UniqueVec<FV>, u64\)", r"::mark_bucket_dirty$"),
+    "bm25": ("anda_db_tfs::bm25::BM25Index::<T>", ("insert", "remove", "purge_ids", "compact_buckets"),
+             "size", r"bm25::Bucket", r"Bucket::mark_dirty$"),
+}
+
+
+def size_change_marks_dirty(rep, rule, prog, which):
+    """Every write of a bucket's recorded size (the accounting that accompanies each posting change) is accompanied by marking
+    the bucket dirty: either the mark lies between the bucket access and the write, or every path from the write to the end of
+    the iteration / function passes it.  A bucket that changed but is not dirty keeps its old object on the next flush: after a
+    reopen the index answers from stale postings (phantom ids) although the live handle was correct."""
+    cls, names, fld, tyrx, mrx = BUCKET_SPECS[which]
+    n = 0
+    for name in names:
+        f = prog.fn(cls + "::" + name)
+        for g in [f] + prog.closures_of(f):
+            M = {e.block for e in g.calls_named(mrx)}
+            A = [e.block for e in g.calls_named(r"dashmap::DashMap::<K, V, S>::(get_mut|entry|iter_mut)$") if "buckets" in recv_fields(g, e)]
+            heads = [e.block for e in g.calls_named(r"Iterator>?::next$")]
+            for b in g.live_blocks():
+                for st in g.stmts(b):
+                    if st[0] != "A" or not st[1].get("p"):
+                        continue
+                    last = [e for e in st[1]["p"] if isinstance(e, dict) and "n" in e]
+                    if not (last and last[-1]["n"] == fld and re.search(tyrx, g.locals[st[1]["l"]])):
+                        continue
+                    n += 1
+                    acc = [a for a in A if g.dominates(a, b)]
+                    near = [x for x in acc if not any(y != x and g.dominates(x, y) for y in acc)]
+                    encl = [h for h in heads if g.dominates(h, b) and g.can_reach([b], [h])]
+                    exits = set(g.return_blocks()) | set(encl)
+                    before = bool(near) and any(g.dominates(near[0], m) and g.dominates(m, b) for m in M)
+                    after = bool(M) and g.must_pass(M, exits, start=b)
+                    rep.ob(rule, "size-change-marks-dirty|%s::%s" % (cls.split("::")[2].split("<")[0], name), before or after,
+                           "a bucket's recorded size changes here but the bucket is not marked dirty on every path (neither between the "
+                           "bucket access and this write, nor afterwards before the iteration ends)", "%s:%d" % (g.file, st[3] if len(st) > 3 else g.line))
+    return n
